@@ -1,6 +1,11 @@
-"""C03 — deductive part: small functions under contract (vf/proofs/small.py); everything else is decided by the bounded stand-in."""
+"""C03 — deductive part: ScopedTerm identity (vf/proofs/small.py) and the greedy recombination `_simplify_scoped_terms`
+(vf/proofs/c03_scoped.py: the set of covered atoms is preserved for every input).  The linear-algebra link between atoms and
+rank/span, `_get_scoped_terms*` and the end-to-end rank/span statement are decided by the bounded stand-in."""
 from vf.proofs.small import run_small
 
 
 def run_proofs(ctx):
     run_small(ctx, "C03")
+    from vf.proofs import c03_scoped
+
+    c03_scoped.run_proofs(ctx)
